@@ -10,6 +10,7 @@ import Gsp.Model.Safe
 import Gsp.Model.Codec
 import Gsp.Model.HasherCfg
 import Gsp.Model.Claim
+import Gsp.Model.Verify
 /-! Line-protocol driver: one JSON case per line on stdin, one `{"id","out"}` per line on stdout. Core-only. -/
 open Lean Gsp
 
@@ -301,6 +302,108 @@ def opSerSlot (inp : Json) : Except String Json := do
   let field ← jstr inp "field"
   pure (exceptJ (fun (n : Nat) => Json.num n) (Claim.getFieldSlotIndex attr field))
 
+
+/-! ### verifiers -/
+def hexOf (j : Json) (k : String) : Verify.Hex :=
+  match j.getObjVal? k with
+  | .ok .null => .absent
+  | .ok (.str s) => match s.toNat? with | some n => .val n | none => .bad
+  | .ok _ => .bad
+  | .error _ => .absent
+
+def treeStateOf (j : Json) : Verify.TreeState :=
+  ⟨hexOf j "state", hexOf j "ctr", hexOf j "rtr", hexOf j "ror"⟩
+
+def proofOf (j : Json) : Except String Smt.Proof := do
+  let ex ← (← j.getObjVal? "ex").getBool?
+  let sib ← (← (← j.getObjVal? "sib").getArr?).toList.mapM jnatS
+  let aux ← match jopt j "aux" with
+    | none => pure none
+    | some a => do
+      let xs ← (← a.getArr?).toList.mapM jnatS
+      match xs with
+      | [k, v] => pure (some (k, v))
+      | _ => throw "aux"
+  pure ⟨ex, sib, aux⟩
+
+def optProofOf (inp : Json) (k : String) : Except String (Option Smt.Proof) :=
+  match jopt inp k with
+  | none => pure none
+  | some pj => do pure (some (← proofOf pj))
+
+def statusAnswerOf (j : Json) : Except String (Except String Verify.StatusAnswer) :=
+  match jopt j "ok" with
+  | none => pure (.error "resolver")
+  | some a => do
+    let mtp ← proofOf (← a.getObjVal? "mtp")
+    pure (.ok ⟨treeStateOf (← a.getObjVal? "issuer"), mtp⟩)
+
+def resolvedOf (j : Json) : Verify.Resolved :=
+  match j with
+  | .str "noStateInfo" => .noStateInfo
+  | .str _ => .error
+  | o => match o.getObjVal? "published" with
+    | .ok (.bool b) => .published (some b)
+    | .ok .null => .published none
+    | _ => .error
+
+def exceptBoolOf (j : Json) : Except String Bool :=
+  match jopt j "ok" with
+  | some (.bool b) => .ok b
+  | _ => .error "oracle-error"
+
+def exceptNatOf (j : Json) : Except String Nat :=
+  match jopt j "ok" with
+  | some v => jnatS v
+  | none => .error "oracle-error"
+
+def outcomeJ : Verify.Outcome → Json
+  | .ok => okJ (Json.str "accepted")
+  | .err e => errJ e
+  | .revoked => errJ "revoked"
+
+def H3of (k : Pos.Consts) : Nat → Nat → Nat → Nat := fun a b c => (Pos.hash k [a, b, c]).getD 0
+
+def issuerOf (j : Json) : Except String Verify.IssuerData := do
+  let didOk ← (← j.getObjVal? "didOk").getBool?
+  pure ⟨didOk, treeStateOf (← j.getObjVal? "state")⟩
+
+def opVerifyBjj (k : Pos.Consts) (inp : Json) : Except String Json := do
+  let b : Verify.BjjBundle := {
+    authClaimOk := ← (← inp.getObjVal? "authClaimOk").getBool?
+    sigOk := ← (← inp.getObjVal? "sigOk").getBool?
+    issuer := ← issuerOf (← inp.getObjVal? "issuer")
+    authMtp := ← optProofOf inp "authMtp"
+    authHi := ← jnatS (← inp.getObjVal? "authHi")
+    authHv := ← jnatS (← inp.getObjVal? "authHv")
+    authNonce := ← jnatS (← inp.getObjVal? "authNonce")
+    resolved := resolvedOf (← inp.getObjVal? "resolved")
+    genesis := exceptBoolOf (← inp.getObjVal? "genesis")
+    statusNonce := exceptNatOf (← inp.getObjVal? "statusNonce")
+    statusAnswer := ← statusAnswerOf (← inp.getObjVal? "statusAnswer") }
+  pure (outcomeJ (Verify.bjj (treeHash k) (H3of k) b))
+
+def opVerifySmt (k : Pos.Consts) (inp : Json) : Except String Json := do
+  let b : Verify.SmtBundle := {
+    issuer := ← issuerOf (← inp.getObjVal? "issuer")
+    mtp := ← optProofOf inp "mtp"
+    hi := ← jnatS (← inp.getObjVal? "hi")
+    hv := ← jnatS (← inp.getObjVal? "hv")
+    resolved := resolvedOf (← inp.getObjVal? "resolved")
+    genesis := exceptBoolOf (← inp.getObjVal? "genesis") }
+  pure (outcomeJ (Verify.smtProof (treeHash k) (H3of k) b))
+
+def opVerifyStatus (k : Pos.Consts) (inp : Json) : Except String Json := do
+  let ans ← statusAnswerOf (← inp.getObjVal? "answer")
+  let nonce ← jnatS (← inp.getObjVal? "nonce")
+  pure (outcomeJ (Verify.status (treeHash k) (H3of k) ans nonce))
+
+def opVerifyHttp (inp : Json) : Except String Json := do
+  let code ← (← inp.getObjVal? "code").getNat?
+  let len ← (← inp.getObjVal? "len").getNat?
+  let parses ← (← inp.getObjVal? "parses").getBool?
+  pure (if Verify.httpStatus code len parses then okJ (Json.str "answer") else errJ "no-answer")
+
 def handle (k : Pos.Consts) (op : String) (inp : Json) : Except String Json :=
   match op with
   | "pre.hash" => opPreHash k inp
@@ -314,6 +417,10 @@ def handle (k : Pos.Consts) (op : String) (inp : Json) : Except String Json :=
   | "claim.history" => opClaimHistory inp
   | "claim.bind" => opClaimBind inp
   | "ser.slot" => opSerSlot inp
+  | "verify.bjj" => opVerifyBjj k inp
+  | "verify.smtp" => opVerifySmt k inp
+  | "verify.status" => opVerifyStatus k inp
+  | "verify.http" => opVerifyHttp inp
   | _ => throw s!"unknown op {op}"
 
 def step (k : Pos.Consts) (line : String) : String :=
